@@ -342,7 +342,7 @@ func TestRealEndpoints(t *testing.T) {
 	if ev.ReplayPath() != "" {
 		t.Skip("replaying")
 	}
-	rec := ev.New(t, prop, "endpoints-sampled", "rapid: accepted triples (values restricted to users/groups that exist here) whose merged configurations are handed to local.NewEndpoint and to a real remote.NewEndpoint <-> remote.ServeEndpoint pair over net.Pipe; "+rule)
+	rec := ev.New(t, prop, "endpoints-sampled", "rapid: accepted triples (values restricted to users/groups that exist here) whose merged configurations are handed to local.NewEndpoint and to a real remote.NewEndpoint <-> remote.ServeEndpoint pair over a socket pair; "+rule)
 	setupEndpointEnvironment(t)
 	_, listed := listedKnown()
 	ev.Check(t, rec, 150, 3000, func(rt *rapid.T) {
